@@ -78,19 +78,28 @@ def posterior_forward(fp, xs):
 def posterior_configs(fp, xs):
     """the same posterior as an explicit sum over changepoint configurations (t <= 10): a configuration assigns to each step i
     'changepoint' (run length becomes 0 after the step, prior weight h) or 'growth' (run length + 1, weight 1-h); the value x_i is
-    predicted from the run before the step."""
+    predicted from the run before the step.  60-digit decimals with an unbounded exponent, as in `posterior_forward`: with tiny variances the
+    likelihoods are e^-5000 and a float sum would lose every configuration but one."""
+    from decimal import Decimal, getcontext, MAX_EMAX, MIN_EMIN
+    ctx = getcontext()
+    ctx.prec, ctx.Emax, ctx.Emin = 60, MAX_EMAX, MIN_EMIN
+    D = lambda v: Decimal(repr(float(v)))  # noqa: E731
+    two_pi = Decimal("6.283185307179586476925286766559005768394338798750211641949889")
     t = len(xs)
-    h = fp["hazard"]
-    joint = [0.0] * (t + 1)
+    h = D(fp["hazard"])
+    pm, pv, dv = D(fp["prior_mean"]), D(fp["prior_var"]), D(fp["data_var"])
+    joint = [Decimal(0)] * (t + 1)
     for bits in itertools.product([False, True], repeat=t):
-        w, run = 1.0, []
+        w, run = Decimal(1), []
         for x, cp in zip(xs, bits):
-            mu, var = params(fp, run)
-            w *= gauss_pdf(x, mu, var) * (h if cp else 1 - h)
+            prec = 1 / pv + Decimal(len(run)) / dv
+            mu = (pm / pv + sum((D(v) for v in run), Decimal(0)) / dv) / prec
+            var = 1 / prec + dv
+            w *= (-(D(x) - mu) ** 2 / (2 * var)).exp() / (two_pi * var).sqrt() * (h if cp else 1 - h)
             run = [] if cp else run + [x]
         joint[len(run)] += w
-    s = sum(joint)
-    return [v / s for v in joint] if s > 0 else None      # every configuration underflows in linear space (tiny variances): no reference
+    s = sum(joint, Decimal(0))
+    return [float(v / s) for v in joint] if s > 0 else None
 
 
 def check(out: Outcome, p: dict, xs: list, runners: list, enum: bool = False) -> None:
